@@ -2,11 +2,11 @@
 # tools/seed_try.sh <seed-id> <property> [tier] [extra vcheck args]: run the property's check against a seeded change,
 # in a scratch copy of /repo's tree selected with VF_REPO (the /repo working tree itself is not touched).
 ID=$1; PROP=$2; TIER=${3:-quick}; shift; shift; shift 2>/dev/null
-S=/var/tmp/vf-try-$ID
+S=/var/tmp/vf-st-$ID
 rm -rf $S; mkdir -p $S; git -C /repo archive HEAD tartiflette | tar -x -C $S
 (cd $S && git init -q . && git apply /verif/seeded/$ID/patch.diff) || { echo "patch does not apply"; exit 9; }
 cd /verif
-VF_REPO=$S VF_EVID=/var/tmp/vf-try-$ID-evid ./vcheck $PROP --tier $TIER "$@" > /var/tmp/vf-try-$ID.log 2>&1
+VF_REPO=$S VF_EVID=/var/tmp/vf-st-$ID-evid ./vcheck $PROP --tier $TIER "$@" > /var/tmp/vf-st-$ID.log 2>&1
 RC=$?
-echo "TRY $ID prop=$PROP tier=$TIER exit=$RC $(grep -c '^VIOLATION' /var/tmp/vf-try-$ID.log) violation line(s); $(tail -1 /var/tmp/vf-try-$ID.log)"
+echo "TRY $ID prop=$PROP tier=$TIER exit=$RC $(grep -c '^VIOLATION' /var/tmp/vf-st-$ID.log) violation line(s); $(tail -1 /var/tmp/vf-st-$ID.log)"
 rm -rf $S
